@@ -239,6 +239,8 @@ impl Prop for C13 {
       ("new([a, boxed [b,c]]) == flat", cc(0, vec![a.clone(), cc(2, vec![b.clone(), c.clone()])])),
       ("new([boxed [a], boxed [b], boxed [c]]) == flat", cc(0, vec![cc(0, vec![a.clone()]), cc(1, vec![b.clone()]), cc(2, vec![c.clone()])])),
       ("new over typed [a,b] and typed [c] (flattened by new) == flat", cc(3, vec![cc(0, vec![a.clone(), b.clone()]), cc(2, vec![c.clone()])])),
+      ("new over no items, then add(typed [a,b]), add(c) == flat", cc(4, vec![cc(0, vec![a.clone(), b.clone()]), c.clone()])),
+      ("new over typed raw items, then add(typed [a,b,c]) == flat", cc(4, vec![Spec::Raw(String::new()), Spec::Raw(String::new()), cc(2, vec![a.clone(), b.clone(), c.clone()])])),
       ("boxed [boxed [a,b,c]] == flat", cc(0, vec![cc(0, vec![a.clone(), b.clone(), c.clone()])])),
       ("Raw('') between children == flat", cc(0, vec![Spec::Raw(String::new()), a.clone(), Spec::Raw(String::new()), b.clone(), c.clone(), Spec::RawStr(String::new())])),
       ("Original('') between children == flat", cc(0, vec![a.clone(), Spec::Orig { text: String::new(), name: "empty.js".into() }, b.clone(), Spec::Orig { text: String::new(), name: "empty.js".into() }, c.clone()])),
